@@ -4,7 +4,7 @@ CHECK = dict(
          "finalisation, reorganisation) supply the histories; for the last call of each sampled history the store is killed inside "
          "every one of its write operations in turn, the records are reopened with NewChain, and the restarted node is compared with "
          "the crash-free twin: start succeeds, each state component has a value the twin passed through, index and finality are "
-         "consistent with the best block, a clean restart is the identity, and re-delivery converges to the twin.",
+         "consistent with the best block, a clean restart is the identity, and re-delivery converges to the twin. After a restart the whole persisted height index (entries above the best height included) must be the one the crash-free node had with that best block (index and chain status are one atomic commit).",
     design_ref="DESIGN.md §6 C19",
     note="Write = Set/Delete/batch commit on an in-memory KV with LevelDB semantics (batch atomic); histories bounded as the casper "
          "family; convergence is required only when no volatile input (orphan, cached vote) was pending at the crash.",
